@@ -8,7 +8,9 @@
 2. The real ConfigManager / EnvService / AuthService run on a private LLAMACTL_CONFIG_DIR:
    (a) implementation-driven: breadth-first exploration of the real system, every operation of the
        alphabet applied at every distinct state found (pruned on the projected state plus which of the
-       existing profiles count as picked), state restored from the bytes of profiles.db;
+       existing profiles count as picked), state restored from the bytes of profiles.db -- exhaustive
+       (all reachable states) for a sub-alphabet (quick: default + 1 environment, 1 name; thorough:
+       default + 2 environments, 1 name), plus the shallowest states of the full alphabet;
    (b) model-driven: TLC's state graph of the small instance is dumped and its edges are replayed on
        the real code, state by state (quick: the shallowest states plus a seeded sample; thorough: every edge);
    (c) fixed histories: the witness of the known finding and its CLI-only variant, run without the
@@ -28,7 +30,7 @@ from harness.core import SPECS, Machinery
 LEVEL = "model_checking"
 RULE = ("histories = (a) every operation of the alphabet (env add/switch/delete, create by token/oidc, select, "
         "select-any, logout, update, ConfigManager create/delete with explicit environment) applied at every "
-        "distinct state of a breadth-first exploration of the real system, (b) covering paths through TLC's state "
+        "distinct state of a breadth-first exploration of the real system (exhaustive for a sub-alphabet), (b) covering paths through TLC's state "
         "graph of the default+1-environment instance (every edge in thorough), (c) fixed witnesses; non-trivial = an environment delete/switch/add "
         "or a profile delete happened after a profile had been selected or created")
 
@@ -87,11 +89,9 @@ def _state_key(obs, picked):
                  sorted(ids[i] + (e,) for (i, e) in picked if i in ids)))
 
 
-def explore_impl(sysm, ops, max_states, max_depth):
+def explore_impl(sysm, init, init_obs, ops, max_states, max_depth):
     """(a) breadth-first over the real system.  One trace per expanded state: the path that reached it plus
     the fan of all operations applied to it (state restored from the bytes of profiles.db each time)."""
-    init_obs = sysm.observe()
-    init = sysm.snapshot()
     seen = {_state_key(init_obs, set()): 0}
     queue = [(init, init_obs, [], set())]     # snapshot, observation, path events, mirror-picked
     traces = []
@@ -208,11 +208,12 @@ def run(chk):
 
     # ---- 1. design level: all TLC runs start now and finish while the real code is being explored
     if chk.quick:
-        jobs = [("graph", "graph", True, ()), ("design", "design", False, ()), ("code", "code", False, ()),
+        jobs = [("graph", "graph", True, ()), ("code", "code", False, ()), ("design2", "design2", False, ()),
                 ("code_strict", "code_strict", False, None)]
     else:
-        jobs = [("graph", "graph", True, ()), ("design4", "design4", False, ()), ("code4", "code4", False, ()),
-                ("cli", "cli", False, ("CmCreate", "CmDelete")), ("code_strict", "code_strict", False, None)]
+        jobs = [("graph", "graph", True, ()), ("code4", "code4", False, ()), ("design4", "design4", False, ()),
+                ("design", "design", False, ()), ("cli", "cli", False, ("CmCreate", "CmDelete")),
+                ("code_strict", "code_strict", False, None)]
 
     def _tlc(job):
         name, cfg, dump, ignore = job
@@ -238,9 +239,13 @@ def run(chk):
 
     sysm = drv.System(chk.work, envs=ENVS, names=NAMES, fast_sync=True)
     init_snap, init_obs = sysm.snapshot(), sysm.observe()
-    # (a) implementation-driven exploration
-    impl, n_states, exhausted = explore_impl(sysm, alphabet(ENVS, NAMES),
-                                             max_states=chk.pick(100, 700), max_depth=chk.pick(7, 9))
+    # (a) implementation-driven exploration: exhaustive for a sub-alphabet (every reachable state of the real
+    #     system x every operation), then the shallowest states of the full alphabet
+    sub_envs, sub_names = (ENVS[:2], NAMES[:1]) if chk.quick else (ENVS, NAMES[:1])
+    impl, n_states, exhausted = explore_impl(sysm, init_snap, init_obs, alphabet(sub_envs, sub_names), max_states=10 ** 9, max_depth=10 ** 9)
+    wide, n_states2, _ = explore_impl(sysm, init_snap, init_obs, alphabet(ENVS, NAMES), max_states=chk.pick(40, 300), max_depth=10 ** 9)
+    impl += wide
+    n_states += n_states2
     traces += impl
     origin += ["impl"] * len(impl)
 
@@ -254,14 +259,25 @@ def run(chk):
     n_model = n_edges = n_graph_states = 0
     if not res.violated:
         g = tlc.load_dot(str(chk.work / "g_graph") + ".dot")
-        mtr, n_edges, n_graph_states = replay_model_graph(sysm, g, init_snap, init_obs, chk.pick(80, 10 ** 9),
+        mtr, n_edges, n_graph_states = replay_model_graph(sysm, g, init_snap, init_obs, chk.pick(60, 10 ** 9),
                                                           random.Random(chk.seed))
         traces += mtr
         origin += ["model"] * len(mtr)
         n_model = len(mtr)
     sysm.close()
 
-    # remaining model-checking results
+    # ---- 3. TLC judges the recorded histories
+    tolerate = sorted({k["key"][len(KF_PREFIX):] for k in chk.known if k["key"].startswith(KF_PREFIX)})
+    batch = {"env_ids": ENVS, "names": NAMES, "default": ENVS[0], "dev": bool(dev), "tolerate": tolerate,
+             "traces": traces}
+    with ThreadPoolExecutor(max_workers=2) as ex:
+        f1 = ex.submit(tracecheck.observe, chk, "obs/Obs_C37.tla", "obs/Obs_C37.cfg", batch, name="obs_c37", workers=1)
+        f2 = ex.submit(tracecheck.conform, chk, "config/TraceLlamactl.tla", "config/TraceLlamactl.cfg", batch,
+                       name="trace_c37", workers=1)
+        verdicts, ores = f1.result()
+        reached, cres = f2.result()
+
+    # remaining model-checking results (they ran while the real code was explored and judged)
     for name, cfg, dump, ignore in jobs:
         if name == "graph":
             continue
@@ -282,17 +298,6 @@ def run(chk):
         if z:
             raise Machinery("vacuity: actions never taken in %s: %s" % (name, z))
     pool.shutdown()
-
-    # ---- 3. TLC judges
-    tolerate = sorted({k["key"][len(KF_PREFIX):] for k in chk.known if k["key"].startswith(KF_PREFIX)})
-    batch = {"env_ids": ENVS, "names": NAMES, "default": ENVS[0], "dev": bool(dev), "tolerate": tolerate,
-             "traces": traces}
-    with ThreadPoolExecutor(max_workers=2) as ex:
-        f1 = ex.submit(tracecheck.observe, chk, "obs/Obs_C37.tla", "obs/Obs_C37.cfg", batch, name="obs_c37", workers=1)
-        f2 = ex.submit(tracecheck.conform, chk, "config/TraceLlamactl.tla", "config/TraceLlamactl.cfg", batch,
-                       name="trace_c37", workers=1)
-        verdicts, ores = f1.result()
-        reached, cres = f2.result()
 
     def _hist(tr, upto):
         return [{"op": e["op"], "ret": e["ret"], "cur_env": e["post"]["cur_env"], "stored": e["post"]["stored"],
